@@ -41,6 +41,21 @@ def registry():
     if _REG is not None:
         return _REG
     reg = {}
+    try:
+        import importlib
+        import pkgutil
+
+        import tpmstream
+
+        for mi in pkgutil.walk_packages(tpmstream.__path__, "tpmstream."):
+            if any(x in mi.name for x in ("tpm_pytss", "tcti", "__main__")):
+                continue
+            try:
+                importlib.import_module(mi.name)
+            except Exception:
+                pass
+    except Exception:
+        pass
     for mname, mod in list(sys.modules.items()):
         if not mname.startswith("tpmstream") or mod is None:
             continue
